@@ -55,7 +55,7 @@ MANIFEST = {
 
 POINTS = [('5/11', '49/16', '7/4'), ('-13/7', '25/9', '5/3')]
 DT = '3/7'
-XS = ['0.37', '-1.21']
+XS = ['0.37', '-1.21', '0.83', '-0.52']
 VARCLS = {'f': 'FourierDomainExpression', 'omega': 'AngularFourierDomainExpression', 'F': 'NormFourierDomainExpression',
           'Omega': 'NormAngularFourierDomainExpression'}
 VARM = {'f': 'fourier', 'omega': 'angular_fourier', 'F': 'norm_fourier', 'Omega': 'norm_angular_fourier'}
@@ -89,7 +89,7 @@ class Gen:
             lambda: ['SB', 'const', {'cval': self.ch(['1', '3', '-2', '5/2'])}],
             lambda: ['SB', 't', {}], lambda: ['SB', 't2', {}], lambda: ['SB', 'abs', {}], lambda: ['SB', 'sign', {}],
             lambda: ['SB', 'step', {}], lambda: ['SB', 'tstep', {}], lambda: ['SB', 'sincn', {}], lambda: ['SB', 'sincn2', {}],
-            lambda: ['SB', 'sincu', {}], lambda: ['SB', 'recip', {}],
+            lambda: ['SB', 'sincu', {}],
             lambda: ['SO', 'delta0', {}], lambda: ['SO', 'delta1', {}], lambda: ['SO', 'delta2', {}],
         ]
         if integrable is None:
@@ -107,7 +107,7 @@ class Gen:
             if a == '1' and b == '0':
                 b = '-1'
             return ['SAf', a, b, s]
-        if k < 0.80 and allow_mod:
+        if k < 0.80 and allow_mod and not _contains(s, ('delta1', 'delta2')):
             m = r.random()
             w = self.ch([['f', '1'], ['f', '2'], ['f', '1/2'], ['f', '-1'], ['w', '3'], ['w', '1'], ['w', '-2'], ['w', '1/2']])
             if m < 0.4:
@@ -137,7 +137,7 @@ class Gen:
             lambda: ['SB', 'rect', {}], lambda: ['SB', 'tri', {}], lambda: ['SB', 'sincn', {}], lambda: ['SB', 'sincn2', {}],
             lambda: ['SB', 'trap', {'alpha': self.ch(['1/2', '1/3', '2/3'])}],
             lambda: ['SB', 'const', {'cval': self.ch(['1', '2', '-3/2'])}], lambda: ['SB', 't', {}], lambda: ['SB', 'abs', {}],
-            lambda: ['SB', 'sign', {}], lambda: ['SB', 'step', {}], lambda: ['SB', 'recip', {}],
+            lambda: ['SB', 'sign', {}], lambda: ['SB', 'step', {}],
             lambda: ['SB', 'expu', {'c1': self.ch(['-1', '-2', '-1/2']), 'c0': '0/1'}],
             lambda: ['SB', 'reciplin', {'c1': ['jtpi', self.ch(['1', '1', '2', '1/2'])], 'c0': self.ch(['1', '2', '3', '1/2'])}],
             lambda: ['SO', 'delta0', {}], lambda: ['SO', 'gausspi', {'r': self.ch(['1', '2'])}],
@@ -191,19 +191,62 @@ class Gen:
         return ' + '.join(terms), sig
 
 
-def sig_feats(s):
+def _contains(s, names):
+    k = s[0]
+    if k in ('SB', 'SO'):
+        return s[1] in names
+    if k == 'SSc':
+        return _contains(s[2], names)
+    if k == 'SAd':
+        return _contains(s[1], names) or _contains(s[2], names)
+    if k == 'SAf':
+        return _contains(s[3], names)
+    return _contains(s[2], names)
+
+
+def _derived(s, out):
+    k = s[0]
+    if k == 'SSc':
+        _derived(s[2], out)
+    elif k == 'SAd':
+        _derived(s[1], out)
+        _derived(s[2], out)
+    elif k == 'SAf':
+        if (Fraction(s[1]), Fraction(s[2])) != (1, 0) and _contains(s[3], ('tstep',)):
+            out.add('tshift')          # a bare polynomial factor under similarity/shift: t u(t) at a t + b
+        if Fraction(s[1]) < 0 and _contains(s[3], ('expu', 'texpu1', 'texpu2', 'reciplin')):
+            out.add('anticausal')      # reversed one-sided exponential: pole in the other half plane
+        _derived(s[3], out)
+    elif k == 'SMo':
+        if _contains(s[2], ('step', 'sign', 'tstep', 'abs')):
+            out.add('modstep')         # step-like signal times a complex exponential: spectrum with a pole off the origin
+        _derived(s[2], out)
+
+
+def sig_feats(s, inverse_dir=False):
     fs_ = set(S.features(s))
-    # the peak-1 trapezoid with alpha = 1 is the triangle (a different behaviour of the code under test)
+    d = set()
+    _derived(s, d)
+    fs_ |= {x for x in d if x == 'tshift'}
+    if inverse_dir:
+        if _contains(s, ('twoexp', 'sgnexp', 'ttwoexp', 'lorentz')):
+            fs_.add('twosided')        # spectrum with poles in both half planes
+        if 'modstep' in d:
+            fs_.add('modstep')
+        if 'anticausal' in d:
+            fs_.add('anticausal')
     return fs_
 
 
 def make_cases(rng, tier, replay=None):
     g = Gen(rng)
-    n_t, n_f, n_h, n_hist = (120, 45, 10, 4) if tier == 'quick' else (900, 350, 60, 20)
+    n_t, n_f, n_h, n_hist = (84, 32, 8, 3) if tier == 'quick' else (900, 350, 60, 20)
     cases = []
     vars_ = ['f', 'omega', 'F', 'Omega']
 
     def add(c):
+        if c.get('dom') == 'f' and not re.search(r'\bf\b', c['expr']):
+            return       # a constant is not an f-domain expression for Lcapy's parser
         c['id'] = len(cases)
         c.setdefault('points', [list(p) for p in POINTS])
         c.setdefault('dt', DT)
@@ -217,7 +260,10 @@ def make_cases(rng, tier, replay=None):
                ['SB', 'reciplin', {'c1': ['jtpi', '1'], 'c0': '2'}], ['SMo', ['w', '3'], ['SB', 'const', {'cval': '1'}]],
                ['SO', 'delta0', {}], ['SO', 'delta1', {}], ['SO', 'twoexp', {'a': '2'}], ['SO', 'gauss', {'r': '1'}], ['SO', 'gausspi', {'r': '1'}],
                ['SO', 'texpu1', {'c': '-2'}], ['SO', 'sgnexp', {'a': '3'}], ['SO', 'ttwoexp', {'a': '1'}],
-               # polynomial-weighted shifted step / sign:  t u(t - 1) = (t-1) u(t-1) + u(t-1)
+               # reversed one-sided exponential, step times a sinusoid (spectra with poles off the upper half plane / on the axis)
+               ['SAf', '-1', '0', ['SB', 'expu', {'c1': '-2', 'c0': '0/1'}]],
+               ['SAd', ['SSc', '1/2', ['SMo', ['w', '3'], ['SB', 'step', {}]]], ['SSc', '1/2', ['SMo', ['w', '-3'], ['SB', 'step', {}]]]],
+               ['SAf', '1', '-1', ['SB', 'step', {}]], ['SAf', '2', '1', ['SB', 'tri', {}]],
                ]
     for s in bases_t:
         add({'kind': 'sig', 'dom': 't', 'sig': s, 'expr': S.sig_src(s, 't'), 'tag': 'base',
@@ -356,7 +402,7 @@ def op_features(case, op):
     k = op['op']
     fs_ = set()
     if case['kind'] in ('sig', 'sshort') and case.get('sig') is not None and k in ('fwd', 'inv', 'rt', 'viatime'):
-        fs_ |= sig_feats(case['sig'])
+        fs_ |= sig_feats(case['sig'], inverse_dir=k in ('inv', 'rt'))
     fs_ |= set(case.get('extra_feats', []))
     if k == 'fwd' and op['var'] != 'f':
         fs_.add('conv:FourierDomainExpression.%s' % VARM[op['var']])
@@ -550,6 +596,11 @@ def run(tier='quick', replay=None):
                     st['state'] = 'error'
                     res.count('lcapy_raises')
                     continue
+                if ro.get('nonfinite'):
+                    st['state'] = 'nonfinite'
+                    st['verdict'] = 'fail'
+                    res.count('nonfinite_result')
+                    continue
                 if ro.get('notclosed'):
                     st['state'] = 'notclosed'
                     res.count('not_closed_form')
@@ -565,7 +616,13 @@ def run(tier='quick', replay=None):
                 for pi_, nf in enumerate(ro['nf']):
                     idx = len(items)
                     opinfo[idx] = (c['id'], oi, pi_)
-                    if op['op'] == 'rt':
+                    if op['op'] == 'conv':
+                        if 'ref_nf' not in ro:
+                            st['state'] = 'uncanon'
+                            st['why'] = 'reference: %s' % ro.get('ref_uncanon')
+                            break
+                        items.append({'idx': idx, 'kind': 'eq', 'obs': nf, 'ref': ro['ref_nf'][pi_]})
+                    elif op['op'] == 'rt':
                         if 'input_nf' not in r:
                             st['state'] = 'uncanon'
                             st['why'] = 'input: %s' % r.get('input_uncanon')
@@ -577,6 +634,16 @@ def run(tier='quick', replay=None):
                         var = 't' if inv else (op['to'] if op['op'] == 'conv' else op['var'])
                         items.append({'idx': idx, 'kind': 'model', 'inv': inv, 'sig': sig, 'var': var, 'dt': c['dt'],
                                       'point': c['points'][pi_], 'obs': nf})
+        for c, r in zip(cases, results):
+            if c['kind'] != 'sig' or not r.get('ops'):
+                continue
+            deg = set()
+            for oi, (op, ro) in enumerate(zip(c['ops'], r['ops'])):
+                if op['op'] == 'fwd' and 'degenerate impulse' in (ro.get('uncanon') or ''):
+                    deg.add(op['var'])
+            for oi, op in enumerate(c['ops']):
+                if op['op'] == 'rt' and op['var'] in deg and (c['id'], oi) in op_status:
+                    op_status[(c['id'], oi)]['feats'].add('degenerate_delta')
         code_bad, spec_bad, code_abs, spec_abs = set(), set(), set(), set()
         if items and (gen_ok or all(it['kind'] == 'eq' for it in items)):
             shard = 150
@@ -628,7 +695,7 @@ def run(tier='quick', replay=None):
                         bad = 0
                         break
                 res.count('oracle_evaluated')
-                if bad == len(ref) and bad >= 2:       # confirmed at the second point
+                if bad >= 2:       # confirmed at a second point
                     oracle_bad[(c['id'], oi)] = {'lcapy': ro['num'], 'integral': ref}
                     res.count('oracle_mismatch')
                 else:
@@ -641,7 +708,7 @@ def run(tier='quick', replay=None):
         for (cid, oi), st in op_status.items():
             c = byid[cid]
             if st['state'] != 'compared':
-                if (cid, oi) in oracle_bad:
+                if (cid, oi) in oracle_bad or st['state'] == 'nonfinite':
                     st['verdict'] = 'fail'
                 else:
                     continue
@@ -667,6 +734,25 @@ def run(tier='quick', replay=None):
                 if d is not None:
                     d.setdefault((kind, f_), 0)
                     d[(kind, f_)] += 1
+        # features named by a broken obligation (the theorem says which entry / method is wrong)
+        oblkey = {}
+        for o in meta['table_obligations']:
+            ft_ = ('rule:' + o['pid'][2:]) if o['pid'].startswith('R_') else ('pid:' + o['pid'])
+            oblkey[o['sound']] = ('fwd', ft_)
+            oblkey[o['inv']] = ('inv', ft_)
+        for o in meta['var_obligations']:
+            ft_ = '%s:%s.%s' % ('sshort' if o['name'].startswith('sshort_') else 'conv', o['cls'], o['method'])
+            oblkey[o['name']] = (None, ft_)
+        broken = {}
+        for name, f_, msg in res.failed_obl:
+            if name in oblkey:
+                broken.setdefault(oblkey[name], []).append(name)
+
+        def broken_feature(kind, feats):
+            for (k_, ft_), names in sorted(broken.items(), key=lambda kv: kv[0][1]):
+                if ft_ in feats and (k_ is None or k_ == kind or (k_ == 'inv' and kind == 'rt' and False)):
+                    return ft_, names
+            return None, None
         # keys of the failing ops
         found = {}
         for (cid, oi), st in sorted(op_status.items()):
@@ -674,18 +760,31 @@ def run(tier='quick', replay=None):
                 continue
             c = byid[cid]
             kind = st['kind']
+            bf, thms = broken_feature(kind, st['feats'])
             sus = [f_ for f_ in st['feats'] if (kind, f_) in failing and (kind, f_) not in passing]
             sus.sort(key=lambda f_: (-failing[(kind, f_)], f_))
-            if sus:
+            if bf:
+                key = '%s:%s' % (kind, bf)
+            elif sus:
                 key = '%s:%s' % (kind, sus[0])
             else:
                 key = '%s:input:%s' % (kind, re.sub(r'\s+', '', c['expr'])[:60])
             ce = {'case': {k: v for k, v in c.items() if k != 'id'}, 'op_index': oi, 'lcapy': st['str'], 'spec_compare': st.get('spec'),
                   'code_compare': st.get('code'), 'oracle': oracle_bad.get((cid, oi))}
+            if thms:
+                ce['theorems'] = thms
             ce['case']['ops'] = [c['ops'][oi]] if c['kind'] != 'hist' else c['ops']
             res.counterexamples.append(ce)
             if key not in found or len(json.dumps(ce['case'].get('sig'))) < len(json.dumps(found[key]['case'].get('sig'))):
                 found[key] = ce
+        if os.environ.get('C12_DEBUG'):
+            dbg = []
+            for (cid, oi), st in sorted(op_status.items()):
+                c = byid[cid]
+                dbg.append({'expr': c['expr'], 'op': c['ops'][oi] if c['kind'] != 'hist' else oi, 'state': st['state'], 'verdict': st.get('verdict'),
+                            'lcapy': st['str'], 'spec': st.get('spec'), 'code': st.get('code'), 'why': st.get('why'),
+                            'oracle': oracle_bad.get((cid, oi)), 'feats': sorted(st['feats'])})
+            json.dump(dbg, open(os.path.join(core.VERIF, '.work', 'c12_debug.json'), 'w'), indent=1)
         for key, ce in sorted(found.items()):
             violations.append({'key': key, 'what': 'Lcapy result differs from the specified transform (%s)' % key, 'replay': ce,
                                'case': ce['case'], 'lcapy': ce['lcapy'], 'found_input': True, 'how': './check C12 --replay <this file>'})
@@ -700,30 +799,21 @@ def run(tier='quick', replay=None):
                                'case': d0, 'n': len(res.disagreements), 'found_input': False,
                                'correspondence': 'FourierModel.ft gen_tbl vs lcapy'})
         # broken obligations: is there a failing input for the same pattern / method?
-        oblkey = {}
-        for o in meta['table_obligations']:
-            oblkey[o['sound']] = 'fwd:' + ('rule:' + o['pid'][2:] if o['pid'].startswith('R_') else 'pid:' + o['pid'])
-            oblkey[o['inv']] = 'inv:' + ('rule:' + o['pid'][2:] if o['pid'].startswith('R_') else 'pid:' + o['pid'])
-        for o in meta['var_obligations']:
-            if o['name'].startswith('sshort_'):
-                oblkey[o['name']] = 'sshort:%s.%s' % (o['cls'], o['method'])
-            elif o['method'] == 'inverse_fourier':
-                oblkey[o['name']] = 'rt:conv:%s.%s' % (o['cls'], o['method'])
-            else:
-                oblkey[o['name']] = 'conv:conv:%s.%s' % (o['cls'], o['method'])
         res.extra['obligation_keys'] = {}
         for name, f_, msg in res.failed_obl:
-            k = oblkey.get(name)
-            if k and k in found:
-                found[k].setdefault('theorems', []).append(name)
-                res.extra['obligation_keys'][name] = k
-                continue
-            # forward use of a conversion is keyed under fwd:
-            if k and k.startswith('conv:conv:') and ('fwd:' + k[5:]) in found:
-                res.extra['obligation_keys'][name] = 'fwd:' + k[5:]
+            hit = None
+            if name in oblkey:
+                k_, ft_ = oblkey[name]
+                for key, ce in found.items():
+                    if name in (ce.get('theorems') or []):
+                        hit = key
+                        break
+            if hit:
+                res.extra['obligation_keys'][name] = hit
                 continue
             violations.append({'key': 'obligation:' + name, 'what': 'Coq obligation %s (%s) no longer checks' % (name, f_),
-                               'theorem': name, 'file': f_, 'message': msg, 'found_input': False, 'expected_input_key': k})
+                               'theorem': name, 'file': f_, 'message': msg, 'found_input': False,
+                               'expected_feature': list(oblkey.get(name, ()))})
         res.rule = ('cases: every base signal of the table plain in both directions; signals drawn from the closure (base x affine argument x '
                     'modulation by complex exponential / cos / sin x constant x sum); x(var) for var in f, omega, F, Omega, X(t) round trip, '
                     'conversions between the variables, H(s)(var, causal) and via the time domain, call histories.  An evaluation = one '
@@ -731,10 +821,16 @@ def run(tier='quick', replay=None):
                     'distinct = distinct (expression, operation).')
         res.extra['seconds_per_phase'] = tph
         res.extra['n_cases'] = len(cases)
-        if replay and cases:
+        if replay:
+            # one stored input through implementation, model and oracle; evidence of the full run is left alone
+            bad = 0
             for (cid, oi), st in sorted(op_status.items()):
-                print('replay op %d: lcapy=%s state=%s spec=%s code=%s oracle=%s' % (oi, st['str'], st['state'], st.get('spec'), st.get('code'),
-                                                                                   oracle_bad.get((cid, oi))))
+                print('replay op %d %s: lcapy=%s | state=%s | model(textbook table)=%s | model(translated table)=%s | quadrature=%s' % (
+                    oi, byid[cid]['ops'][oi] if byid[cid]['kind'] != 'hist' else '', st['str'], st['state'], st.get('spec'), st.get('code'),
+                    oracle_bad.get((cid, oi))))
+                bad += st.get('verdict') == 'fail'
+            print('replay verdict: %s' % ('property violated on this input' if bad else 'no violation on this input'))
+            return 1 if bad else 0
         return core.finish(res, violations)
     finally:
         if not os.environ.get('VERIF_KEEP'):
